@@ -140,6 +140,25 @@ def wide_chain(rng, n):
     return LP("min", cols, rows)
 
 
+def tinycoef(rng):
+    """feasible (or bounded) only through a coefficient far below the floating-point tolerances: the double and mpf
+    simplex misjudge it, only the exact tests protect the answer"""
+    eps = F(1, 10 ** rng.choice([12, 13, 15, 18]))
+    kind = rng.choice(["feas", "feas", "feas-fixed", "bounded"])
+    if kind == "feas":
+        # x <= 0 ; x + eps f >= 1/2 ; f + h <= 1/eps
+        cols = [[F(rng.choice([0, 1, -1])), NINF, F(0)], [F(rng.choice([0, 1])), F(0), INF], [F(0), F(0), INF]]
+        rows = [["G", F(1, 2), F(0), [(0, F(1)), (1, eps)]], ["L", 1 / eps, F(0), [(1, F(1)), (2, F(1))]]]
+        return LP(rng.choice(["min", "max"]) if cols[0][0] == 0 and cols[1][0] == 0 else "min", cols, rows)
+    if kind == "feas-fixed":
+        # x <= 0 ; x + eps f + g >= 3/2 ; f + h <= 1/eps ; g fixed at 1
+        cols = [[F(0), NINF, F(0)], [F(1), F(0), INF], [F(0), F(1), F(1)], [F(0), F(0), INF]]
+        rows = [["G", F(3, 2), F(0), [(0, F(1)), (1, eps), (2, F(1))]], ["L", 1 / eps, F(0), [(1, F(1)), (3, F(1))]]]
+        return LP("min", cols, rows)
+    # max x  s.t. eps x <= 1, x >= 0   (bounded only through eps)
+    return LP("max", [[F(1), F(0), INF], [F(rng.choice([0, 1])), F(0), F(5)]], [["L", F(1), F(0), [(0, eps)]], ["L", F(7), F(0), [(1, F(1))]]])
+
+
 def mixed(rng, n_lps, small=True):
     """the default mixture"""
     out = []
